@@ -23,37 +23,6 @@ Proof.
   name_cases n Hn; cbn in He; injection He as He; subst; eval_step3; split_ifs3; solve_post3.
 Qed.
 
-(* ... or linked from the new partner's side: then ITS value wins and reaches the first partner *)
-Lemma one3_sync_from_leaf F n va vb vc nts :
-  inv3 (M3One n) va vb vc ->
-  exists va' vb' vc',
-    let r := step (S (S (S F))) (st3 (M3One n) va vb vc nts) (Sync 2%nat n 0%nat n true) in
-    ob_vals (snd r) = [va'; vb'; vc'] /\ overflow (fst r) = false /\
-    nth_error va' n = nth_error vc n /\ nth_error vb' n = nth_error vc n /\ nth_error vc' n = nth_error vc n /\
-    law_step (edges3 (M3One n)) [va; vb; vc] (Sync 2%nat n 0%nat n true) (snd r) = [].
-Proof.
-  intros (Ta & Tb & Tc & Hn & He). values3 Ta Tb Tc.
-  name_cases n Hn; cbn in He; injection He as He; subst;
-  match goal with |- exists va' vb' vc', let r := ?s in _ =>
-    let r' := eval lazy -[Z.eqb zlist_eqb mutate apply_event Z.leb] in s in
-    change (exists va' vb' vc', let r := r' in
-       ob_vals (snd r) = [va'; vb'; vc'] /\ overflow (fst r) = false /\
-       nth_error va' _ = nth_error (tv u0 u1 j0 j1) _ /\ nth_error vb' _ = nth_error (tv u0 u1 j0 j1) _ /\
-       nth_error vc' _ = nth_error (tv u0 u1 j0 j1) _ /\
-       law_step (edges3 (M3One _)) [tv s0 s1 l0 l1; tv t0 t1 k0 k1; tv u0 u1 j0 j1] (Sync 2%nat _ 0%nat _ true) (snd r) = [])
-  end;
-  rewrite ?Z.eqb_refl, ?zlist_eqb_refl;
-  repeat (match goal with
-          | |- context [?a =? ?b] =>
-              tryif constr_eq a b then fail else
-              (let E := fresh "E" in destruct (a =? b) eqn:E; [apply Z.eqb_eq in E; subst|])
-          | |- context [zlist_eqb ?a ?b] =>
-              tryif constr_eq a b then fail else
-              (let E := fresh "E" in destruct (zlist_eqb a b) eqn:E; [apply zlist_eqb_eq in E; subst|])
-          end; rewrite ?Z.eqb_refl, ?zlist_eqb_refl);
-  cb; use_hyps; rewrite ?Z.eqb_refl, ?zlist_eqb_refl; cb; do 3 eexists; repeat split; reflexivity.
-Qed.
-
 Lemma star3_unsync F n va vb vc nts :
   inv3 (M3Star n) va vb vc ->
   post3 (M3Star n) (M3One n) va vb vc (Unsync 0%nat n 2%nat n true)
